@@ -1,0 +1,9 @@
+//go:build verif
+
+package controller
+
+// Hook for the verification harness in /verif (build tag `verif`).
+// Add-only: nothing here is compiled without the tag and no existing line is changed.
+
+// VerifSetStopChan installs the channel RunForever watches, so that the harness can end a main loop it started.
+func (c *Controller) VerifSetStopChan(ch <-chan struct{}) { c.stopChan = ch }
